@@ -64,3 +64,36 @@ Theorem protected_covers_base_system : forall i b, In b base_system_dirs ->
   In (u_off i ++ b) (protected_names i).
 Proof. exact protected_covers_base_system_proof. Qed.
 Print Assumptions protected_covers_base_system.
+
+(* completeness of the deepest-first pass, lifted to the final tree: when no listed name goes through a
+   symlinked directory, a removable listed directory is either gone (its name denotes nothing) or
+   still has a child in the final tree - it is never left behind empty *)
+Theorem unmerge_dirs_complete : forall i t s' e p,
+  run_engine i = (t, s', e) -> alias_free i ->
+  removable i p -> lstat (u_fs i) p = Some (p, true) -> p <> [] ->
+  lstat s' p = None \/ has_child s' p = true.
+Proof. exact unmerge_dirs_complete_proof. Qed.
+Print Assumptions unmerge_dirs_complete.
+
+(* hook schedule, from the regenerated trigger table *)
+Theorem protection_before_unmerge : forall m, In m engine_modes ->
+  In name_unmerge (run_names m name_unmerge) ->
+  runs_before name_protection name_unmerge (run_names m name_unmerge) = true.
+Proof. exact protection_before_unmerge_proof. Qed.
+Print Assumptions protection_before_unmerge.
+
+Theorem unmerge_scheduled :
+  In name_unmerge (run_names REPLACE_MODE name_unmerge) /\
+  In name_unmerge (run_names UNINSTALL_MODE name_unmerge) /\
+  run_names INSTALL_MODE name_unmerge = [] /\
+  (forall m h, In m engine_modes -> In h (mode_hooks m) -> In name_unmerge (run_names m h) -> h = name_unmerge).
+Proof. exact unmerge_scheduled_proof. Qed.
+Print Assumptions unmerge_scheduled.
+
+Theorem protection_applied : forall i,
+  In (engine_mode i) engine_modes /\
+  protect_first (engine_mode i) =
+    runs_before name_protection name_unmerge (run_names (engine_mode i) name_unmerge) /\
+  protect_first (engine_mode i) = true.
+Proof. exact protection_applied_proof. Qed.
+Print Assumptions protection_applied.
